@@ -422,6 +422,25 @@ class FnEmit:
             else:
                 e = '((%s)(%s %s %s))' % (ct, a, co[op], b)
             s.setreg(reg, t, e)
+        elif op in ('sitofp', 'uitofp', 'fptosi', 'fptoui', 'fpext', 'fptrunc'):
+            ft = p.type(); v = s.val(p, ft); p.expect('to'); tt = p.type()
+            if op == 'sitofp': v = s.sx(ft, v)
+            if op == 'fptosi':
+                st = {8:'int8_t',16:'int16_t',32:'int32_t',64:'int64_t'}[tt.w]
+                s.setreg(reg, tt, '((%s)(%s)%s)' % (E.ct(tt), st, v))
+            else: s.setreg(reg, tt, '((%s)%s)' % (E.ct(tt), v))
+        elif op in ('fadd', 'fsub', 'fmul', 'fdiv'):
+            while p.peek() in ('fast','nnan','ninf','nsz','arcp','contract','afn','reassoc'): p.next()
+            t = p.type(); a = s.val(p, t); p.expect(','); b = s.val(p, t)
+            s.setreg(reg, t, '(%s %s %s)' % (a, {'fadd':'+','fsub':'-','fmul':'*','fdiv':'/'}[op], b))
+        elif op == 'fneg':
+            t = p.type(); a = s.val(p, t); s.setreg(reg, t, '(-%s)' % a)
+        elif op == 'fcmp':
+            while p.peek() in ('fast','nnan','ninf','nsz','arcp','contract','afn','reassoc'): p.next()
+            cc = p.next(); t = p.type(); a = s.val(p, t); p.expect(','); b = s.val(p, t)
+            co = {'oeq':'==','one':'!=','ogt':'>','oge':'>=','olt':'<','ole':'<=','ueq':'==','une':'!=','ugt':'>','uge':'>=','ult':'<','ule':'<='}.get(cc)
+            if co is None: raise Err('fcmp ' + cc)
+            s.setreg(reg, T('int', w=1), '(%s %s %s)' % (a, co, b))
         elif op == 'icmp':
             cc = p.next(); t = p.type(); a = s.val(p, t); p.expect(','); b = s.val(p, t)
             co = {'eq':'==','ne':'!=','ugt':'>','uge':'>=','ult':'<','ule':'<=','sgt':'>','sge':'>=','slt':'<','sle':'<='}[cc]
